@@ -584,6 +584,21 @@ func famServeWant(want ...string) family {
 				}
 			}
 		}
+		// deterministic prefix stress: every prefix and suffix of listed origins (incl. a maximal one) as the Origin value
+		{
+			maxO := "a" + strings.Repeat("b", 63) + "://" + longHost(253, 'a') + ".:65535"
+			c := &cors.Config{Origins: []string{"https://api.example.com:8443", maxO, "http://[2001:db8::1]:9090"}, Credentialed: true, ExtraConfig: cors.ExtraConfig{DangerouslyTolerateInsecureOrigins: true}}
+			m := newMW(c, false)
+			for _, full := range c.Origins {
+				for k := 0; m != nil && k <= len(full); k++ {
+					if len(full) > 100 && k > 90 && k < len(full)-12 && k%7 != 0 {
+						continue
+					}
+					emitOne(c, false, m, reqT{method: "GET", hdrs: http.Header{"Origin": {full[:k]}}}, "prefix-stress/origin")
+					emitOne(c, false, m, reqT{method: "GET", hdrs: http.Header{"Origin": {full[k:]}}}, "prefix-stress/origin")
+				}
+			}
+		}
 		// deterministic size stress: requested-header lists of 9 000 bytes in one line and in 2 000 lines, from an allowed
 		// and from a disallowed origin, with an allowed and a disallowed method (the refusal must look the same)
 		{
